@@ -787,8 +787,10 @@ class RequestHandler(BaseProtocol, Generic[_Request]):
             writer = StreamWriter(self, loop)
             pre_handler_error: HTTPBadRequest | None = None
             if isinstance(message, _ErrInfo):
+                # A parser error may carry no message: the default text then,
+                # content_type without text is deprecated (it warns).
                 pre_handler_error = HTTPBadRequest(
-                    text=message.message, content_type="text/plain"
+                    text=message.message or None, content_type="text/plain"
                 )
                 pre_handler_error.__cause__ = message.exc
                 message = ERROR
